@@ -36,7 +36,9 @@ def spec_kwargs(route):
         for m, p in (spec[4] if len(spec) > 4 else []):
             entries[int(m)] = True if p is None else p
         if style == "dict":
-            kw[KW[nm]] = entries
+            # optional 6th field: write the dictionary keys as negative mode numbers (mode - n_const), which the code maps back
+            neg = len(spec) > 5 and spec[5] and route["n_const"]
+            kw[KW[nm]] = {(m - route["n_const"] if neg else m): v for m, v in entries.items()}
         elif style == "list":
             kw[KW[nm]] = [entries.get(i) for i in range(route["n_const"])]
         else:
@@ -545,6 +547,10 @@ def gen_spec_route(rng, name, par, a, kind, scale):
         for sp in specs:
             if sp[0] == name and sp[2] == mode:
                 sp.append(others)
+    for sp in specs:
+        if len(sp) == 4:
+            sp.append([])
+        sp.append(bool(sp[1] == "dict" and rng.random() < 0.3))
     order = rng.randrange(n_const)
     route = {"specs": specs, "n_const": n_const, "order": order}
     if style == "scalar" or order == mode:
